@@ -163,12 +163,22 @@ pub fn at_caught_up(r: &mut Runner, _repo_inst: usize, rpres: &RpResult) {
             }
         }
     }
+    // A key the child has retired (roll finished, class dropped) must not
+    // stay in use at its parent: "a revocation request that the parent
+    // answers positively always has this effect".
+    if r.world.insts.len() == 1 {
+        for detail in crate::c09::stale_child_keys(r) {
+            problems.push(format!("revocation had no effect: {detail}"));
+        }
+    }
     if !ended_now.is_empty() {
         r.stat("c03.objects_ended");
     }
     if let Some(p) = problems.into_iter().next() {
         let rule = if p.contains("still published") {
             "revoked_still_published"
+        } else if p.contains("revocation had no effect") {
+            "revocation_without_effect"
         } else {
             "not_on_crl"
         };
